@@ -789,7 +789,11 @@ private:
       ? std::min(_config.connectTimeout, std::chrono::milliseconds(200))
       : _config.connectTimeout;
 
-    auto connectResult = _transport->connectSync(resolvedHost, parsedUrl.port, tlsMode, timeout);
+    // The connection goes to the resolved ADDRESS; the TLS session must still be
+    // authenticated against the NAME in the URL (SNI + certificate name check).
+    const std::string tlsServerName = isIPAddress(parsedUrl.host) ? std::string() : parsedUrl.host;
+    auto connectResult =
+      _transport->connectSync(resolvedHost, parsedUrl.port, tlsMode, timeout, tlsServerName);
     if (connectResult.isErr())
     {
       throw std::runtime_error("Connection failed to " + hostPort + ": " +
